@@ -4,3 +4,6 @@ import RustCcModel.Properties.C03
 #print axioms RustCc.C03.dropValue_marks_dead
 #print axioms RustCc.C03.dealloc_free_loop_events
 #print axioms RustCc.C03.newCyclic_guard_no_drop
+#print axioms RustCc.C03.free_only_when_live
+#print axioms RustCc.C03.freed_forever
+#print axioms RustCc.C03.no_pointer_to_freed
